@@ -782,11 +782,14 @@ func c20RunChild(c *Case, job c20Job, work string, inject string) (trace string,
 	}
 	trace = filepath.Join(work, "trace.txt")
 	args := []string{"-f", "-xx", "-s", "4194304", "-e", "trace=openat,open,creat,write,rename,renameat,renameat2,link,linkat,unlink,unlinkat,close", "-o", trace}
-	if inject != "" {
+	if inject != "" && inject != "plain" {
 		args = append(args, "-e", "inject="+inject)
 	}
 	args = append(args, self)
 	cmd := exec.Command("strace", args...)
+	if inject == "plain" { // no tracing: the recovery run after a crash
+		cmd = exec.Command(self)
+	}
 	cmd.Env = append(os.Environ(), "C20_CHILD="+jobPath, "GOMAXPROCS=2")
 	out, runErr := cmd.CombinedOutput()
 	if b, e := os.ReadFile(job.Result); e == nil {
@@ -922,12 +925,28 @@ func c20Case(c *Case, realKill bool) {
 	if r.Chance(50) {
 		os.WriteFile(filepath.Join(d0, "Banlist.yaml"), []byte("10.9.9.9: null\n"), 0644)
 	}
-	if r.Chance(30) { // a temp file left by an earlier crash
-		os.WriteFile(filepath.Join(users, ".account.tmp"), []byte("Login: ghost\nName: left over\n"), 0644)
+	// temp files left behind by earlier crashes (killed after the temp file was written, before the rename): short ones
+	// and ones LONGER than anything a later update writes – a later update must not inherit their tail
+	stale := func(path string, yamlish bool) {
+		if !r.Chance(35) {
+			return
+		}
+		n := r.Pick(5, 30, 20000, 60000)
+		var b []byte
+		if yamlish {
+			b = []byte("Login: ghost\nName: left over\n")
+			for len(b) < n {
+				b = append(b, []byte("stale: \"left by a crashed update "+c20Token(r, 20)+"\"\n  - not: [valid\n")...)
+			}
+		} else {
+			b = []byte(strings.Repeat("STALE-"+c20Token(r, 6)+"\r", n/13+1))
+		}
+		os.WriteFile(path, b, 0644)
 	}
-	if r.Chance(20) {
-		os.WriteFile(filepath.Join(d0, "MessageBoard.txt.tmp"), []byte("stale"), 0644)
-	}
+	stale(filepath.Join(users, ".account.tmp"), true)
+	stale(filepath.Join(d0, "MessageBoard.txt.tmp"), false)
+	stale(filepath.Join(d0, "ThreadedNews.yaml.tmp"), true)
+	stale(filepath.Join(d0, "Banlist.yaml.tmp"), true)
 	// updates; the last one's kind is cycled over all kinds
 	wantLast := c20Kinds[int(c.Seed%uint64(len(c20Kinds)))]
 	n := 3 + r.Intn(6)
@@ -1140,6 +1159,15 @@ func c20Case(c *Case, realKill bool) {
 		}
 		c.Dist(fmt.Sprintf("verdict/%s/%s", kindOf(last), v))
 	}
+	// (ii-b) life goes on after a crash: restart on a crash state (its leftovers included), make further complete updates
+	// of the same store, restart again – everything acknowledged in the recovery run must be on disk and loadable
+	if len(lastCalls) > 0 {
+		kc := r.Intn(len(lastCalls) + 1)
+		if r.Chance(60) && len(lastCalls) >= 3 {
+			kc = 2 + r.Intn(2) // temp file completely written, not yet renamed
+		}
+		c20Recovery(c, r, pre, lastCalls, kc, store, job.IPs, scratch)
+	}
 	if (len(lastCalls) > 0 && oldV[store] != newV[store]) || (last.Existing && res.Errors[lastIdx] != "") {
 		c.Nontrivial(fmt.Sprintf("%s|%v|%s|%s", kindOf(last), last, c20Listing(pre, ""), c20Listing(pre, "Users")))
 	}
@@ -1189,6 +1217,87 @@ func c20RealKill(c *Case, job c20Job, init0 c20State, scratch string, lastCalls 
 			c.Disagree("real-kill-vs-materialised", "the directory left by a really killed child loads differently from the materialised trace prefix")
 		}
 	}
+}
+
+// c20Recovery materialises "first kc calls of the in-flight update done", restarts the real stores on it in a child,
+// lets the child complete 1..3 small updates (valid whether the crashed update took effect or not), and loads the
+// directory again: it must load, and hold exactly what the child had in memory when its updates had returned.
+func c20Recovery(c *Case, r *RNG, pre c20State, lastCalls []c20Call, kc int, store string, ips []string, scratch string) {
+	sim := c20NewSim(pre)
+	for i := 0; i < kc; i++ {
+		sim.apply(lastCalls[i])
+	}
+	work := filepath.Join(scratch, "recovery")
+	cfg := filepath.Join(work, "config")
+	os.RemoveAll(work)
+	if err := sim.state().write(cfg); err != nil {
+		panic(err)
+	}
+	follow := func(st string) c20Update {
+		switch st {
+		case "board":
+			return c20Update{Kind: "board-post", Data: hex.EncodeToString([]byte("From r (Jan02 15:04):\r\r" + c20Token(r, r.Pick(0, 3, 40)) + "\r\r___\r"))}
+		case "news":
+			return c20Update{Kind: "news-cat", Path: nil, Name: "z" + c20Token(r, 3), Bundle: r.Bool()}
+		case "accounts":
+			if r.Bool() {
+				return c20Update{Kind: "acct-create", Login: "z" + c20Token(r, 5), Name: "Z", Access: c20RandAccess(r)}
+			}
+			return c20Update{Kind: "acct-update", Login: "guest", NewLogin: "guest", Name: "G " + c20Token(r, 3), Access: c20RandAccess(r)}
+		default:
+			return c20Update{Kind: "ban-add", IP: ips[r.Intn(len(ips))], Until: 1900000000 + int64(r.Intn(1000))}
+		}
+	}
+	ups := []c20Update{follow(store)}
+	for n := r.Intn(3); n > 0; n-- {
+		ups = append(ups, follow(c20Stores4[r.Intn(4)]))
+	}
+	if r.Bool() {
+		ups = append(ups, follow(store))
+	}
+	job := c20Job{Dir: cfg, Updates: ups, IPs: ips}
+	_, res, err := c20RunChild(c, job, work, "plain")
+	if err != nil {
+		panic(err)
+	}
+	note := func() {
+		c.Note("recovery_after_call", kc)
+		c.Note("recovery_updates", ups)
+		c.Note("crash_state", c20Listing(sim.state(), "")+" || Users: "+c20Listing(sim.state(), "Users"))
+	}
+	if res.LoadError != "" {
+		note()
+		c.Note("load_error", res.LoadError)
+		c.Violation("crash-state-does-not-load", "the restarted server could not load a crash state: "+res.LoadError)
+		return
+	}
+	for i, e := range res.Errors {
+		if e != "" {
+			note()
+			c.Note("update_index", i)
+			c.Note("error", e)
+			c.Violation("update-fails-after-crash", "after a restart on a crash state an ordinary update fails: "+e)
+			return
+		}
+	}
+	v, lerr := c20LoadValues(cfg, ips)
+	if lerr != "" {
+		note()
+		c.Note("load_error", lerr)
+		c.Violation("state-after-recovery-does-not-load", "a crash left a temp file behind; after the restarted server had completed further updates the directory no longer loads: "+lerr)
+		return
+	}
+	for _, s := range c20Stores4 {
+		if v[s] != res.MemAfter[s] {
+			note()
+			c.Note("store", s)
+			c.Note("memory", clip(res.MemAfter[s]))
+			c.Note("disk", clip(v[s]))
+			c.Violation("acknowledged-change-not-on-disk", "after a restart on a crash state and further completed updates, reloading gives a different "+s+" value than the one the server had in memory (leftovers of the crashed update leaked into the file)")
+			return
+		}
+	}
+	c.Dist("recovery/" + store)
 }
 
 var _ = bytes.Equal
